@@ -2,7 +2,7 @@
    rejected.  Only statements, each closed by [exact <lemma>] and followed by Print Assumptions. *)
 From Coq Require Import String.
 From Coq Require Import List Arith Ascii NArith ZArith QArith Bool Lia.
-From AIT Require Import C18.Model C18.Spec C18.Proofs C18.ProofsSafe C18.ProofsSem C18.ProofsPrint C18.ProofsPrint2.
+From AIT Require Import C18.Model C18.Spec C18.Proofs C18.ProofsSafe C18.ProofsSem C18.ProofsPrint C18.ProofsPrint2 C18.ProofsReject C18.ProofsCheck.
 Import ListNotations.
 Local Close Scope Q_scope.
 Local Close Scope string_scope.
@@ -108,3 +108,60 @@ Example ex_missing_sizes :
   exists p body, parseModelInfo (lex_text (txt ["actions: 2"; "T: 0 : 0 : 0 1"]%string)) pre0 = Ok (p, body)
                  /\ pS p = 0%N /\ length body = 1.
 Proof. eexists. eexists. vm_compute. repeat split. Qed.
+
+(* The driver's boolean checkers are sound, so every generated well-formed case on which
+   [wfb] and [rendersb] hold is an instance of parse_print. *)
+Theorem wfb_sound : forall pomdp prog, wfb pomdp prog = true -> wf pomdp prog.
+Proof. exact wfb_sound_lemma. Qed.
+Print Assumptions wfb_sound.
+
+Theorem rendersb_sound : forall prog ls, rendersb prog ls = true -> renders prog ls.
+Proof. exact rendersb_sound_lemma. Qed.
+Print Assumptions rendersb_sound.
+
+Example ex_checkers :
+  let prog := [SStates (DNames [["a"%char]; ["b"%char]]); SActions (DNum 1);
+               SMat TT IStar [[VQ 1%Q; VQ 0%Q]; [VQ (1 # 2)%Q; VQ (1 # 2)%Q]]; SRew IStar (IName ["b"%char]) IStar (VQ 2%Q)] in
+  let text := txt ["actions: 1"; "T: *"; "1 0"; "0.5 0.5"; "R: * : b : * : * 2"; "states: a b"]%string in
+  wfb false prog = true /\
+  rendersb [SActions (DNum 1); SMat TT IStar [[VQ 1%Q; VQ 0%Q]; [VQ (1 # 2)%Q; VQ (1 # 2)%Q]];
+            SRew IStar (IName ["b"%char]) IStar (VQ 2%Q); SStates (DNames [["a"%char]; ["b"%char]])] (lex_text text) = true.
+Proof. vm_compute. split; reflexivity. Qed.
+
+(* incomplete_rejected, clause by clause *)
+Theorem bad_index_rejected : forall t m max,
+  str_eqb t star = false -> lookup m t = None ->
+  (stoul t = Throw E_stoul \/ exists v, stoul t = Ok v /\ (N.of_nat max <= v)%N) ->
+  exists e, parseIndeces t m max = Throw e.
+Proof. exact bad_index_rejected_lemma. Qed.
+Print Assumptions bad_index_rejected.
+
+Example ex_bad_index :  (* "3" with 3 states declared by number; "nowhere" is no name and no number *)
+  (exists v, stoul ["3"%char] = Ok v /\ (N.of_nat 3 <= v)%N) /\ stoul ["n"%char; "o"%char] = Throw E_stoul.
+Proof. split; [exists 3%N; split; [reflexivity| vm_compute; discriminate]| reflexivity]. Qed.
+
+Theorem wrong_count_vector_rejected : forall ts n, length ts <> n -> parseVector ts n = Throw E_vec_count.
+Proof. exact wrong_count_vector_rejected_lemma. Qed.
+Print Assumptions wrong_count_vector_rejected.
+
+Theorem wrong_colons_rejected : forall fixed M D1 D2 D3 ma d1m d3m l rest,
+  l_colons l = 0 \/ 3 < l_colons l -> processMatrix fixed M D1 D2 D3 ma d1m d3m l rest = Throw E_colons.
+Proof. exact wrong_colons_rejected_lemma. Qed.
+Print Assumptions wrong_colons_rejected.
+
+Theorem reward_colons_rejected : forall R nS nA ma ms l,
+  l_colons l <> 4 -> processReward R nS nA ma ms l = Throw E_colons.
+Proof. exact reward_colons_rejected_lemma. Qed.
+Print Assumptions reward_colons_rejected.
+
+Theorem missing_rows_rejected : forall n d1 av D3 M, 0 < n -> read_rows n d1 av D3 M [] = Throw E_at.
+Proof. exact missing_rows_rejected_lemma. Qed.
+Print Assumptions missing_rows_rejected.
+
+(* repaired parser (fixes/C18-size-overflow.patch): sizes whose tables do not fit in size_t are rejected *)
+Theorem oversize_rejected : forall pomdp ls p body,
+  parseModelInfo ls pre0 = Ok (p, body) -> pS p <> 0%N -> pA p <> 0%N -> (pomdp = true -> pO p <> 0%N) ->
+  (max_elems < pS p * pA p * pS p)%N ->
+  parse_lines true pomdp ls = Throw E_too_large.
+Proof. exact oversize_rejected_lemma. Qed.
+Print Assumptions oversize_rejected.
